@@ -178,7 +178,10 @@ def check_type(chk, F, ty, thorough):
                 chk.undecide("form|%s|%s" % (ty, tr), "unsupported: %s" % ex, body_loc(F, body))
             pred = "is_" + nm
             body = F.impl_item(imp, pred)
-            if body is None:
+            if body is None and pred == "is_one":
+                from .c06 import default_is_one
+                default_is_one(chk, F, "form|%s|%s::%s" % (ty, tr, pred), imp, ty, sp)
+            elif body is None:
                 chk.undecide("form|%s|%s::%s" % (ty, tr, pred), "missing anchor")
             else:
                 paths = run_paths(F, body, lambda: [sp.operand("a")])
